@@ -75,6 +75,8 @@ def make_analysis(prog):
 
 def allowed(h, exc: str) -> bool:
     for alt in exc.split("|"):
+        if alt.startswith(E + "numbertheory."):
+            return False  # the number-theory helpers' own errors (Error, SquareRootError, JacobiError) are internal: a decoder converts them (to MalformedPointError) or it leaks them
         if alt.startswith(E):
             continue
         if h.is_sub(alt, "ValueError"):
